@@ -68,8 +68,10 @@ th.start()
 res = {'reads': [], 'wrq': [], 'reaper_alive_mid': None}
 for i, p in enumerate(images):
     for name, mode, steps in %(requests)r:
-        c = Client(srv.server_address, 1.0)
-        c.rrq(('%%x/%%s' %% (0x100 + i, name)).encode(), mode, [(b'utimeout', b'20000')])
+        c = Client(srv.server_address, 3.0)
+        # a short server timeout only for the transfers this client abandons (they are cleaned up quickly); complete
+        # transfers keep the default, so a client delayed by a loaded machine is not given up on
+        c.rrq(('%%x/%%s' %% (0x100 + i, name)).encode(), mode, [(b'utimeout', b'20000')] if steps is not None else [])
         if steps is None:
             c.run()
         else:
